@@ -58,6 +58,13 @@ func spaces(thorough bool) []fnSpace {
 	}
 	subj := strs(abc, subjN)
 	seps := strs(abc, sepN)
+	// quick tier: a dense blank-free sub-space where partial and overlapping matches exist
+	// (subjects of length 3-4 over {a, b}, separators of length 2)
+	var denseSubj, denseSeps []string
+	if !thorough {
+		denseSubj = append(denseSubj, "aaa", "aab", "aba", "abb", "baa", "bab", "bba", "bbb", "aabb", "abab", "abba", "baab", "ababb", "aabab")
+		denseSeps = []string{"aa", "ab", "ba", "bb", "abb"}
+	}
 	repl := strs(abc, 1)
 	counts := []int{-2, -1, 0, 1, 2, 3, 4}
 	var out []fnSpace
@@ -65,6 +72,11 @@ func spaces(thorough bool) []fnSpace {
 		fs := fnSpace{Fn: fn, Batch: batch}
 		for _, s := range subj {
 			for _, p := range seps {
+				fs.Tuples = append(fs.Tuples, Tuple{Fn: fn, S: []string{s, p}})
+			}
+		}
+		for _, s := range denseSubj {
+			for _, p := range denseSeps {
 				fs.Tuples = append(fs.Tuples, Tuple{Fn: fn, S: []string{s, p}})
 			}
 		}
@@ -101,6 +113,16 @@ func spaces(thorough bool) []fnSpace {
 				for _, nw := range repl {
 					fa.Tuples = append(fa.Tuples, Tuple{Fn: "ReplaceAll", S: []string{s, o, nw}})
 					for _, c := range counts {
+						fs.Tuples = append(fs.Tuples, Tuple{Fn: "Replace", S: []string{s, o, nw}, N: c, HasN: true})
+					}
+				}
+			}
+		}
+		for _, s := range denseSubj {
+			for _, o := range denseSeps {
+				for _, nw := range []string{"", "b", "ab"} {
+					fa.Tuples = append(fa.Tuples, Tuple{Fn: "ReplaceAll", S: []string{s, o, nw}})
+					for _, c := range []int{-1, 1, 2} {
 						fs.Tuples = append(fs.Tuples, Tuple{Fn: "Replace", S: []string{s, o, nw}, N: c, HasN: true})
 					}
 				}
